@@ -143,6 +143,9 @@ EXC_KINDS = [UserExc, UserKeyError, UserValueError, UserRuntimeError, UserExc, U
 MAX_EXC_TAG = 21
 
 
+ARMED = [0]
+
+
 def user_exc(tag, in_coroutine=False, driver="sync"):
     """the exception class is a function of the tag (1..21), so a scenario replays exactly"""
     k = EXC_KINDS[tag % len(EXC_KINDS)]
@@ -156,7 +159,9 @@ def user_exc(tag, in_coroutine=False, driver="sync"):
             loop = None
         import statemachine.utils as _u
         own = getattr(_u._cached_loop, "loop", None) if hasattr(_u, "_cached_loop") else None
-        if driver not in ("sync", "facade") or (loop is not None and loop is not own):
+        if driver not in ("sync", "facade") or (loop is not None and loop is not own) or ARMED[0] <= 0:
+            # (ARMED: only while an operation runs under `Runtime.step*`, which catches them; anywhere else in the
+            # harness a stray SystemExit would end the process or silently kill a pool worker)
             return UserBaseExc(tag)
     if isinstance(k, str):
         return _lib_exc(k)(tag)
@@ -1378,6 +1383,7 @@ class Session:
         if self.dead:
             rt.lines.append(f"R {i} skipped")
             return
+        ARMED[0] += 1
         try:
             k, r = self.do_op(i, op)
             if k == "L":
@@ -1392,12 +1398,15 @@ class Session:
             rt.lines.append(f"R {i} err {rt.exc_s(e)} cur={rt.seen()} tid={self.cur_tid}")
             if op[0] in ("construct", "reconstruct", "fresh"):
                 self.dead = True
+        finally:
+            ARMED[0] -= 1
 
     def step_sync(self, i, op):
         rt = self.rt
         if self.dead:
             rt.lines.append(f"R {i} skipped")
             return
+        ARMED[0] += 1
         try:
             k, r = self.do_op(i, op)
             if k == "L":
@@ -1410,6 +1419,8 @@ class Session:
             rt.lines.append(f"R {i} err {rt.exc_s(e)} cur={rt.seen()} tid={self.cur_tid}")
             if op[0] in ("construct", "reconstruct", "fresh"):
                 self.dead = True
+        finally:
+            ARMED[0] -= 1
 
 
 def run_impl(scn: Scn):
